@@ -150,7 +150,7 @@ PROPS = {
         module="Evl.Props.C04",
         theorems=["Evl.C04.discipline", "Evl.C04.discipline_ok", "Evl.C04.discipline_nonvacuous", "Evl.C04.one_section", "Evl.C04.roots_mutations_in_section", "Evl.C04.window_registered", "Evl.C04.window_removed", "Evl.C04.window_overlap", "Evl.C04.swap_is_one_store",
                   "Evl.C04.lockset_sound'", "Evl.C04.sequential"],
-        runs=[race_run("window", 30, 400, 120), race_run("registry", 300, 3000, 1000), REGISTRY_RUN], oracle_prefixes=["C04"], models=["M4 Lockset", "M1 Registry", "Generated.Accesses/RegistryFacts"],
+        runs=[race_run("window", 30, 400, 120), race_run("registry", 300, 3000, 1000), race_run("typehook", 6, 60, 20), REGISTRY_RUN], oracle_prefixes=["C04"], models=["M4 Lockset", "M1 Registry", "Generated.Accesses/RegistryFacts"],
         trusted_base=TB_COMMON + ["gofacts translator: Evl/Generated/*.lean are regenerated from /repo on every run"],
         assumptions=LOCK_ASSUME + M1_ASSUME, rule=LOCK_RULE,
         technique="Lean 4 proof (lock-set soundness theorem + kernel `decide` over facts regenerated from source by a translator) + race-detector concurrency harness as validation/search",
@@ -178,7 +178,7 @@ PROPS = {
         module="Evl.Props.C05",
         theorems=["Evl.C05.accept_iff", "Evl.C05.failed_noop", "Evl.C05.failed_graph_residue", "Evl.C05.isAny_iff",
                   "Evl.C05.only_wellformed_registered", "Evl.C05.validateChain_flat"],
-        runs=[REGISTRY_RUN], oracle_prefixes=["C05"], models=["M1 Registry"],
+        runs=[REGISTRY_RUN, race_run("typehook", 6, 60, 20)], oracle_prefixes=["C05"], models=["M1 Registry"],
         trusted_base=TB_COMMON, assumptions=M1_ASSUME, rule=M1_RULE,
     ),
     "C06": dict(
@@ -194,7 +194,7 @@ PROPS = {
                   "Evl.C07.allow_node_overwrite", "Evl.C07.allow_pipe_overwrite", "Evl.C07.invalid_policy_rejected",
                   "Evl.C07.node_rebinding", "Evl.C07.one_version_on_source", "Evl.C07.one_version",
                   "Evl.C07.invalid_option_anywhere", "Evl.C07.valid_options"],
-        runs=[REGISTRY_RUN, race_run("window", 30, 400, 120)], oracle_prefixes=["C07", "C01/C07"], models=["M1 Registry"],
+        runs=[REGISTRY_RUN, race_run("window", 30, 400, 120), race_run("typehook", 6, 60, 20)], oracle_prefixes=["C07", "C01/C07"], models=["M1 Registry"],
         trusted_base=TB_COMMON, assumptions=M1_ASSUME, rule=M1_RULE,
     ),
     "C20": dict(
@@ -246,7 +246,7 @@ PROPS = {
         assumptions=["encoding/json on leaves: number tokens (strconv) and time.Time's RFC 3339 rendering are passed verbatim to the model; map keys are sorted bytewise by the encoder",
                      "the harness flattens the generated Go value into the token stream in the encoder's order; unsupported kinds (chan, NaN/Inf) are marked by the harness",
                      "decoding back: proved with the model's own strict JSON parser (M8r Evl.Json.parseDoc / readStr: compact documents, RFC 8259 number grammar, invalid UTF-8 comes back as U+FFFD) - the whole stored line parses to the object {created_at, event_type, payload} holding the images of the three; that parser is itself compared with encoding/json as a reader (json.Valid + Decoder.Token) on the stored lines and on lines damaged in one place (operations parse / accepts); trusted: the bytes time.Time and strconv produce for the creation time and for numbers (a JSON value each); race freedom of the table is C19's lock-set theorem"],
-        rule="payloads from a JSON-value generator (nil, bools, large ints, floats incl. NaN/Inf, strings built from control / HTML / multi-byte / U+2028/9 / invalid UTF-8 pieces, nested slices and maps to depth 3, channels) x event types with special characters x JSONFormatter / JSONFormatterFilter with predicate absent/keep/drop/error, eventlogger.Filter; the stored bytes are compared byte for byte with the model's rendering; non-trivial = a container or multi-token payload, distinct by op line",
+        rule="payloads from a JSON-value generator (nil, bools, large ints, floats incl. NaN/Inf, strings built from control / HTML / multi-byte / U+2028/9 / invalid UTF-8 pieces, nested slices and maps to depth 3; unencodable values of seven kinds: channels, functions, failing MarshalJSON / MarshalText (value and map key), invalid RawMessage, invalid json.Number; zero and zoned creation times) x event types with special characters x JSONFormatter / JSONFormatterFilter with predicate absent/keep/drop/error, eventlogger.Filter; the stored bytes are compared byte for byte with the model's rendering; non-trivial = a container or multi-token payload, distinct by op line",
     ),
     "C18": dict(
         module="Evl.Props.C18",
@@ -293,8 +293,8 @@ PROPS = {
     ),
     "C17": dict(
         module="Evl.Props.C17",
-        theorems=["Evl.C17.process_expiry", "Evl.C17.bound", "Evl.C17.flushAll_empties", "Evl.C17.close_is_flushAll"],
-        runs=[GATED_RUN], oracle_prefixes=["C17"], models=["M6 Gated"],
+        theorems=["Evl.C17.process_expiry", "Evl.C17.bound", "Evl.C17.flushAll_empties", "Evl.C17.close_is_flushAll", "Evl.C17.sections_on_source"],
+        runs=[GATED_RUN, race_run("gated", 15, 300, 100)], oracle_prefixes=["C17"], models=["M6 Gated", "Generated.LockSites(gatedSections)"],
         trusted_base=TB_COMMON, assumptions=GATED_ASSUME, rule=GATED_RULE,
     ),
 }
